@@ -175,7 +175,7 @@ impl Default for BrokerCfg {
 #[derive(Debug)]
 pub enum BrokerEv {
     /// put frames on the mux queue of a channel
-    Enqueue { ch: u16, frames: Vec<Vec<u8>>, what: SentKind },
+    Enqueue { ch: u16, frames: Vec<Vec<u8>>, what: SentKind, epoch: u32 },
     Flush,
     Heartbeat,
     Script(usize),
@@ -257,6 +257,7 @@ struct ChanState {
     consumers: Vec<(String, bool, bool)>, // tag, active, ConsumeOk on the wire
     pending_pub: Option<usize>,     // index into publishes log
     next_delivery_tag: u64,
+    epoch: u32,
 }
 
 #[derive(Clone, Debug, PartialEq)]
@@ -388,7 +389,8 @@ impl Broker {
         if delay == 0 {
             self.enqueue_now(ch, frames, what);
         } else {
-            simrt::schedule_in(delay, true, "broker.enqueue", Box::new(BrokerEv::Enqueue { ch, frames, what }));
+            let epoch = self.chans.get(&ch).map(|c| c.epoch).unwrap_or(0);
+            simrt::schedule_in(delay, true, "broker.enqueue", Box::new(BrokerEv::Enqueue { ch, frames, what, epoch }));
         }
     }
 
@@ -689,7 +691,12 @@ impl Broker {
 
     pub fn on_event(&mut self, ev: BrokerEv) {
         match ev {
-            BrokerEv::Enqueue { ch, frames, what } => self.enqueue_now(ch, frames, what),
+            BrokerEv::Enqueue { ch, frames, what, epoch } => {
+                // a reply decided for an earlier incarnation of the channel id is not sent on the new one
+                if ch == 0 || self.chans.get(&ch).map(|c| c.epoch).unwrap_or(0) == epoch {
+                    self.enqueue_now(ch, frames, what)
+                }
+            }
             BrokerEv::Flush => self.flush(),
             BrokerEv::Heartbeat => {
                 if !self.silent && !self.s2c_closed && self.phase != Phase::Closed {
@@ -877,6 +884,12 @@ impl Broker {
             return;
         }
         self.script_fired[i] = true;
+        // a fallback entry (same action under another trigger) does nothing once the action has run
+        for j in 0..self.cfg.script.len() {
+            if j != i && self.script_fired[j] && self.cfg.script[j].1 == self.cfg.script[i].1 {
+                return;
+            }
+        }
         self.stats.scripted_actions += 1;
         let action = self.cfg.script[i].1.clone();
         self.do_action(action);
@@ -1150,6 +1163,13 @@ impl Broker {
             }
             return;
         }
+        // a channel the server has closed (or that was never opened) is deaf until it is opened
+        // again: requests the client sent before it learnt of the close are discarded
+        if ch != 0 && !self.chans.get(&ch).map(|c| c.open).unwrap_or(false) {
+            if !matches!(class, AMQPClass::Channel(Ch::Open(_)) | AMQPClass::Channel(Ch::Close(_)) | AMQPClass::Channel(Ch::CloseOk(_))) {
+                return;
+            }
+        }
         match class {
             AMQPClass::Connection(m) => match m {
                 Cn::StartOk(s) => {
@@ -1202,7 +1222,9 @@ impl Broker {
             AMQPClass::Channel(m) => match m {
                 Ch::Open(_) => {
                     let cs = self.chans.entry(ch).or_default();
+                    let epoch = cs.epoch + 1;
                     *cs = ChanState::default();
+                    cs.epoch = epoch;
                     cs.open = true;
                     let id = format!("chan-{}", self.uniq());
                     self.reply(ch, AMQPClass::Channel(Ch::OpenOk(channel::OpenOk { channel_id: id })));
